@@ -26,7 +26,9 @@ async fn main() {
     let mut outs = std::fs::File::create(out("impl.txt")).unwrap();
     for ci in 0..n {
         let nf = r.below(4) as usize + 1;
-        let mode = if r.below(2) == 0 { "new" } else { "add" };
+        // "new": all files given to IgnoreFilter::new; "add": added one by one with add_file; "globs": the same lines added with add_globs
+        // (how the CLI's --ignore patterns and the discovery's VCS globs get in)
+        let mode = match r.below(5) { 0 | 1 => "new", 2 | 3 => "add", _ => "globs" };
         let mut files = vec![]; let mut enc_files = vec![]; let mut used = std::collections::HashSet::new();
         for fi in 0..nf {
             let (ai, ai_s): (Option<PathBuf>, String) = if r.below(6) == 0 { (None, "-".into()) } else { let d = r.pick(&dirs); let p = if r.below(10) == 0 { tmp.join(r.pick(&["elsewhere", "elsewhere/a", "o2"])) } else if d.is_empty() { origin.clone() } else { origin.join(d) }; (Some(p.clone()), p.display().to_string()) };
@@ -44,7 +46,9 @@ async fn main() {
         }
         let filter = if mode == "new" { IgnoreFilter::new(&origin, &files).await } else {
             let mut f = IgnoreFilter::new(&origin, &[]).await.unwrap(); let mut err = None;
-            for file in &files { if let Err(e) = f.add_file(file).await { err = Some(e); break; } }
+            for (file, enc) in files.iter().zip(enc_files.iter()) {
+                let res = if mode == "globs" { let lines: Vec<&str> = enc.split('\x1e').nth(1).unwrap_or("").split('\x1f').filter(|l| !l.is_empty()).collect(); f.add_globs(&lines, file.applies_in.as_ref()) } else { f.add_file(file).await };
+                if let Err(e) = res { err = Some(e); break; } }
             match err { Some(e) => Err(e), None => Ok(f) } };
         let mut probes = vec![]; let mut res = vec![];
         for _ in 0..6 {
